@@ -44,8 +44,31 @@ class Watchdog(BaseException):
     it for the run's own failure."""
 
 
+_ARMED = [False]
+
+
 def _alarm(signum, frame):
-    raise Watchdog()
+    if _ARMED[0]:
+        raise Watchdog()
+
+
+def _guarded(timeout, fn):
+    """fn() under a wall-clock limit.  -> (value, timed_out).  The timer keeps firing every few seconds after the first
+    expiry: a call that hangs usually hangs again in its own clean-up (closing and joining a pool whose result thread
+    has died), and that has to be interrupted as well or the watchdog would only move the hang."""
+    old = signal.signal(signal.SIGALRM, _alarm)
+    _ARMED[0] = True
+    signal.setitimer(signal.ITIMER_REAL, timeout, 3.0)
+    try:
+        try:
+            return fn(), False
+        except Watchdog:
+            _ARMED[0] = False
+            return None, True
+    finally:
+        _ARMED[0] = False
+        signal.setitimer(signal.ITIMER_REAL, 0)
+        signal.signal(signal.SIGALRM, old)
 
 
 def plain_run(cfg, workers, timeout, t=None):
@@ -70,19 +93,10 @@ def _plain_run_once(cfg, workers, timeout):
     else:
         os.environ.pop("CUPCAKE_ENABLE_MULTIPROCESSING", None)
         run_cfg["num_processors"] = 1
-    old = signal.signal(signal.SIGALRM, _alarm)
-    signal.setitimer(signal.ITIMER_REAL, timeout)
-    timed_out = False
-    tr = None
     try:
-        tr = e2e.run(run_cfg, sync_pool=False, record_admm=False)
-        leftover = [p for p in multiprocessing.active_children() if p.pid not in before]
-    except Watchdog:
-        timed_out = True
+        tr, timed_out = _guarded(timeout, lambda: e2e.run(run_cfg, sync_pool=False, record_admm=False))
         leftover = [p for p in multiprocessing.active_children() if p.pid not in before]
     finally:
-        signal.setitimer(signal.ITIMER_REAL, 0)
-        signal.signal(signal.SIGALRM, old)
         if env_saved is None:
             os.environ.pop("CUPCAKE_ENABLE_MULTIPROCESSING", None)
         else:
@@ -99,8 +113,13 @@ def _reap(procs):
         for o in gc.get_objects():
             try:
                 if isinstance(o, multiprocessing.pool.Pool) and not isinstance(o, e2e.SyncPool):
-                    o.terminate()
-                    o.join()
+                    _guarded(20.0, lambda o=o: (o.terminate(), o.join()))
+            except Exception:
+                pass
+        for p in multiprocessing.active_children():
+            try:
+                p.kill()
+                p.join(2)
             except Exception:
                 pass
     for p in procs:
@@ -387,16 +406,10 @@ def _plain_call_with_lambda(cfg, workers, lam, timeout):
         os.environ["CUPCAKE_ENABLE_MULTIPROCESSING"] = "1"
     else:
         os.environ.pop("CUPCAKE_ENABLE_MULTIPROCESSING", None)
-    old = signal.signal(signal.SIGALRM, _alarm)
-    signal.setitimer(signal.ITIMER_REAL, timeout)
-    tr, timed_out = None, False
     try:
-        tr = e2e.run(run_cfg, sync_pool=False, record_admm=False, extra_kwargs={"sparsity_weight": lam})
-    except Watchdog:
-        timed_out = True
+        tr, timed_out = _guarded(timeout, lambda: e2e.run(run_cfg, sync_pool=False, record_admm=False,
+                                                          extra_kwargs={"sparsity_weight": lam}))
     finally:
-        signal.setitimer(signal.ITIMER_REAL, 0)
-        signal.signal(signal.SIGALRM, old)
         if env_saved is None:
             os.environ.pop("CUPCAKE_ENABLE_MULTIPROCESSING", None)
         else:
